@@ -10,7 +10,7 @@ ids = [json.loads(l)["id"] for l in open(os.path.join(ROOT, "properties.jsonl"))
 NOT_APPLICABLE = {
     "C16": "quantifies over thread interleavings of std::sync::Mutex-based globals and foreign entry points: Kani has no "
            "thread support and Verus reasons about concurrency only for code written against its own permission/atomic "
-           "types, which the real code is not; no contract within reach expresses or decides it (DESIGN.md section 6)",
+           "types, which the real code is not; no contract within reach expresses or decides it (DESIGN.md section 8)",
 }
 DEFAULT_REASON = "check not built yet (build in progress); see DESIGN.md section 5"
 
@@ -22,8 +22,8 @@ m = {
     "setup_cmd": "./check setup",
     "hooks": {
         "guard": "avl_savefile_verif",
-        "enable": "cargo feature avl_savefile_verif on savefile / savefile-abi (enabled by the Kani harness crate's path dependencies); "
-                  "no hook is needed by the Verus units",
+        "enable": "NO hook exists: the feature name was reserved, but no instrumentation had to be added to /repo (source_commits is empty); "
+                  "every check builds /repo exactly as its own test-suite does (plus cargo features the library already has)",
         "baseline_off_cmd": "cd /repo && cargo test --workspace --no-fail-fast --offline",
         "source_commits": hooks.get("source_commits", []),
         "add_only": True,
@@ -38,6 +38,10 @@ m = {
             "monomorphic wrappers; loop-free full-domain harnesses are complete proofs, others are labelled bounded; "
             "counterexamples replayed natively through the same harness body (src/bin/replay.rs)",
          "serves_properties": sorted(p for p, c in checks.items() if c.get("kani") or c.get("kani_thorough"))},
+        {"name": "native", "path": "/verif/kani/harness/src/native_registry.rs", "kind_free_text":
+            "BOUNDED stand-in only (never counted as proved): small-scope enumeration of harness bodies on the natively compiled real "
+            "code (replay --enum), used where neither verifier reaches a function; bound stated per harness",
+         "serves_properties": sorted(p for p, c in checks.items() if c.get("native"))},
     ],
     "checks": [],
     "notes": "Contract-based deductive verification of the real code; see DESIGN.md. exit 2 = undecided (never an alarm).",
@@ -52,9 +56,9 @@ for pid in ids:
             "thorough_cmd": "./check %s --tier thorough" % pid,
             "evidence_file": "/verif/evidence/%s.json" % pid,
             "replay_cmd_template": "./check %s --replay {path}" % pid,
-            "engine": "+".join(e for e in ("verus", "kani") if c.get(e) or c.get(e + "_thorough")),
+            "engine": "+".join(e for e in ("verus", "kani", "native") if c.get(e) or c.get(e + "_thorough")),
             "level_claimed": {"category": c.get("level", "proof"), "text": c.get("level_text", c.get("explanation", "")),
-                              "design_ref": c.get("design_ref", "DESIGN.md section 5 / " + pid)},
+                              "design_ref": c.get("design_ref", "DESIGN.md section 7 / " + pid)},
             "level_note": c.get("level_note", ""),
             "technique": c.get("technique", "contract-based deductive verification (Verus / Kani function contracts)"),
         })
